@@ -512,25 +512,44 @@ package packet
 //@ func (Tuple).ReadFrom(t; r) (n, err)
 //@   trusted
 
-// Compression enabled, packet below the threshold:  leb(1+len(id)+len(data))  00  leb(id)  data.
-// Decided: total length, the three header fields and their positions. The clause 'the data bytes follow
-// unchanged' did not discharge within the limit (copy chain through the pooled buffer) and is not claimed.
-// (The compressed branch - zlib writer, in-place patch of the length through Buffer.Bytes - is
-// excluded by the precondition and not verified.)
+// compressPacket (zlib writer from a pool) is not verified: it appends the compressed form of
+// id ++ data to w (at least the two-byte zlib header when it succeeds) and touches nothing else.
+//@ func compressPacket(w, packetID, data) (err)
+//@   trusted
+//@   let wk = sink(w)
+//@   let l0 = old(Wlen(wk))
+//@   ensures all(k, 0, l0, Wout(wk, k) == old(Wout(wk, k)))
+//@   ensures Wlen(wk) >= l0 && Wlen(wk) < 1<<30
+//@   ensures err == nil ==> Wlen(wk) >= l0 + 2
+//@   modifies sink(w)
+
+// Compression enabled.
+// Below the threshold:  leb(1+len(id)+len(data))  00  leb(id)  data   (total length, the three header
+// fields and their positions are decided; that the data bytes follow unchanged is not claimed).
+// At or above the threshold:  leb(PL)  leb(len(id)+len(data))  <compressed bytes>  where PL counts exactly
+// the bytes that follow the length prefix (h is the width of that prefix: the unique h <= n with leb32_len(n-h) == h) - the prefix is patched into a 5-byte padding in place, through
+// the slice returned by Buffer.Bytes (aliasing model), so the clause also says there is no gap between
+// the prefix and the data-length field.
 //@ func (*Packet).packWithCompression(p; w, threshold) (err)
+//@   aliasbytes
 //@   let wk = sink(w)
 //@   let l0 = old(Wlen(wk))
 //@   let il = leb32_len(uint32(p.ID))
 //@   let L = 1 + il + len(p.Data)
 //@   let hl = leb32_len(uint32(L))
-//@   requires len(p.Data) <= 2097152 && len(p.Data) < threshold
+//@   let n = Wlen(wk) - l0
+//@   let DL = il + len(p.Data)
+//@   let dl = leb32_len(uint32(DL))
+//@   requires len(p.Data) <= 2097152 && l0 < 1<<30
 //@   ensures all(k, 0, l0, Wout(wk, k) == old(Wout(wk, k)))                         [@frame]
-//@   ensures err == nil ==> Wlen(wk) == l0 + hl + L                                  [@layout @count]
-//@   ensures err == nil ==> all(q, 0, 5, q < hl ==> Wout(wk, l0+q) == leb32_byte(uint32(L), q))          [@layout]
-//@   ensures err == nil ==> Wout(wk, l0+hl) == 0                                     [@layout]
-//@   ensures err == nil ==> all(q, 0, 5, q < il ==> Wout(wk, l0+hl+1+q) == leb32_byte(uint32(p.ID), q))   [@layout]
+//@   ensures err == nil && len(p.Data) < threshold ==> Wlen(wk) == l0 + hl + L       [@layout @count]
+//@   ensures err == nil && len(p.Data) < threshold ==> all(q, 0, 5, q < hl ==> Wout(wk, l0+q) == leb32_byte(uint32(L), q))          [@layout]
+//@   ensures err == nil && len(p.Data) < threshold ==> Wout(wk, l0+hl) == 0          [@layout]
+//@   ensures err == nil && len(p.Data) < threshold ==> all(q, 0, 5, q < il ==> Wout(wk, l0+hl+1+q) == leb32_byte(uint32(p.ID), q))   [@layout]
+//@   ensures err == nil && len(p.Data) >= threshold ==> any(h, 1, 6, n >= h && leb32_len(uint32(n - h)) == h) && n >= 1 + dl + 2   [@layout]
+//@   ensures err == nil && len(p.Data) >= threshold ==> all(h, 1, 6, n >= h && leb32_len(uint32(n - h)) == h ==> all(q, 0, 5, q < h ==> Wout(wk, l0+q) == leb32_byte(uint32(n - h), q)))   [@layout]
+//@   ensures err == nil && len(p.Data) >= threshold ==> all(h, 1, 6, n >= h && leb32_len(uint32(n - h)) == h ==> all(r, 0, 5, r < dl ==> Wout(wk, l0+h+r) == leb32_byte(uint32(DL), r)))   [@layout]
 //@   ensures Wfail(wk) ==> err != nil                                                [@errprop]
-//@   ensures !Wfail(wk) ==> err == nil                                               [@errprop]
 //@   modifies sink(w)                                                                [@frame]
 
 // ---------------------------------------------------------------- Option[T] (C06: the optional-value combinator)
